@@ -476,45 +476,6 @@ theorem strcmp_spec : ∀ (a b : Bytes),
         · right; left; exact ⟨h, by rw [he]⟩
         · right; right; exact ⟨h, List.cons_lt_cons_iff.mpr (Or.inr ⟨rfl, hg⟩)⟩
 
-/-! ## substr -/
-
-theorem substrIdx_spec (s : Bytes) (i : Int) (n : Nat) (hi : -(s.length : Int) ≤ i) :
-    ∃ a b, substrIdx s.length i n = some (a, b) ∧ a ≤ b ∧ b ≤ s.length ∧
-      sub s a b = (s.drop (if i < 0 then i + s.length else i).toNat).take n := by
-  unfold substrIdx
-  by_cases hneg : i < 0
-  · have h0 : ¬ (i + (s.length : Int) < 0) := by omega
-    simp only [hneg, if_true, h0, if_false]
-    by_cases hge : i + (s.length : Int) ≥ s.length
-    · omega
-    · simp only [hge, if_false]
-      by_cases hj : (i + (s.length : Int)).toNat + n > s.length
-      · simp only [hj, if_true]
-        refine ⟨_, _, rfl, by omega, by omega, ?_⟩
-        rw [sub_eq, List.take_of_length_le (by simp), List.take_of_length_le (by simp; omega)]
-      · simp only [hj, if_false]
-        refine ⟨_, _, rfl, by omega, by omega, ?_⟩
-        rw [sub_eq, Nat.add_sub_cancel_left]
-  · have h0 : ¬ (i < 0) := hneg
-    simp only [hneg, if_false]
-    by_cases hge : i ≥ s.length
-    · simp only [hge, if_true]
-      have hj : ¬ (s.length + n > s.length) ∨ (s.length + n > s.length) := by omega
-      refine ⟨s.length, s.length, ?_, by omega, by omega, ?_⟩
-      · by_cases hn : s.length + n > s.length <;> simp [hn]
-        omega
-      · rw [sub_eq, List.drop_eq_nil_of_le (by omega), List.drop_eq_nil_of_le (by omega)]
-        simp
-    · simp only [hge, if_false]
-      by_cases hj : i.toNat + n > s.length
-      · simp only [hj, if_true]
-        refine ⟨_, _, rfl, by omega, by omega, ?_⟩
-        rw [sub_eq, List.take_of_length_le (by simp), List.take_of_length_le (by simp; omega)]
-      · simp only [hj, if_false]
-        refine ⟨_, _, rfl, by omega, by omega, ?_⟩
-        rw [sub_eq, Nat.add_sub_cancel_left]
-
-
 /-! ## numbers -/
 
 def IsDigit (c : UInt8) : Prop := 48 ≤ c ∧ c ≤ 57
@@ -700,5 +661,145 @@ theorem digitsRev_length (k : Nat) : ∀ n, n < 10 ^ k → (digitsRev n).length 
         omega
       have := ih (n / 10) this
       simp only [List.length_cons]; omega
+
+
+/-! ## canonical decimal text -/
+
+def ascii (b : UInt8) : Char := Char.ofNat b.toNat
+
+theorem digitChar_small : ∀ d, d < 10 → ascii (UInt8.ofNat (48 + d)) = d.digitChar := by decide
+
+/-- the digits written are exactly those of Lean's `Nat.toDigits 10` -/
+theorem digitsRev_toDigits (n : Nat) (h : n ≠ 0) : (digitsRev n).reverse.map ascii = Nat.toDigits 10 n := by
+  induction n using Nat.strongRecOn with
+  | _ n ih =>
+    rw [digitsRev_pos n h, List.reverse_cons, List.map_append, List.map_cons, List.map_nil,
+      digitChar_small (n % 10) (Nat.mod_lt _ (by decide)), ← Nat.toDigits_of_lt_base (b := 10) (Nat.mod_lt n (by decide))]
+    by_cases h10 : n / 10 = 0
+    · have : n % 10 = n := by omega
+      rw [h10, digitsRev_zero, this]; rfl
+    · rw [ih (n / 10) (by omega) h10, Nat.toDigits_append_toDigits (by decide) (by omega) (Nat.mod_lt _ (by decide))]
+      congr 1; omega
+
+/-- `%u`/`%llu` text (and the magnitude part of `myitoa`/`myltoa`) is Lean's `Nat.repr`: canonical decimal, no leading zeros -/
+theorem utoa_repr (n : Nat) : String.ofList ((utoa n).map ascii) = Nat.repr n := by
+  unfold utoa Nat.repr
+  split
+  · rename_i h; subst h; rfl
+  · rename_i h; rw [digitsRev_toDigits n h]
+
+theorem utoa_no_leading_zero (n : Nat) (h : n ≠ 0) : (utoa n).head? ≠ some 48 := by
+  unfold utoa
+  simp only [h, if_false]
+  induction n using Nat.strongRecOn with
+  | _ n ih =>
+    rw [digitsRev_pos n h, List.reverse_cons]
+    by_cases h10 : n / 10 = 0
+    · rw [h10, digitsRev_zero]
+      have hd : n % 10 ≠ 0 := by omega
+      have := (digit_of_mod n).2
+      simp only [List.reverse_nil, List.nil_append, List.head?_cons, ne_eq, Option.some.injEq]
+      intro e
+      have e2 := congrArg UInt8.toNat e
+      rw [this] at e2
+      simp at e2; omega
+    · have hne := digitsRev_ne_nil (n / 10) h10
+      have := ih (n / 10) (by omega) h10
+      cases hr : (digitsRev (n / 10)).reverse with
+      | nil => exact absurd (List.reverse_eq_nil_iff.mp hr) hne
+      | cons c t => rw [hr] at this; simpa using this
+
+theorem intmin_digits : Gen.Str.intMinText = 45 :: (digitsRev 2147483648).reverse := by
+  simp [digitsRev_pos, digitsRev_zero, Gen.Str.intMinText]
+
+/-- `myitoa` is an optional `-` followed by the canonical decimal text of the magnitude, for every `int`
+    (the `INT_MIN` literal included — a fact about the regenerated literal) -/
+theorem myitoa_shape (x : Int) (h1 : -2147483648 ≤ x) (h2 : x < 2147483648) :
+    myitoa x = if x < 0 then 45 :: utoa (-x).toNat else utoa x.toNat := by
+  unfold myitoa utoa
+  by_cases h0 : x = 0
+  · subst h0; rfl
+  · simp only [h0, if_false]
+    by_cases hneg : x < 0
+    · simp only [hneg, if_true]
+      by_cases hmin : x = -2147483648
+      · subst hmin
+        simp only [if_true, intmin_digits]
+        rfl
+      · have : (-x).toNat ≠ 0 := by omega
+        simp only [hmin, if_false, this]
+    · have : x.toNat ≠ 0 := by omega
+      simp only [hneg, if_false, this]
+
+theorem myltoa_shape (x : Int) (h1 : -9223372036854775808 ≤ x) (h2 : x < 9223372036854775808) :
+    myltoa x = if x < 0 then 45 :: utoa (-x).toNat else utoa x.toNat := by
+  unfold myltoa utoa
+  by_cases h0 : x = 0
+  · subst h0; rfl
+  · simp only [h0, if_false]
+    by_cases hneg : x < 0
+    · have hm : (18446744073709551616 - (x % 18446744073709551616).toNat) % 18446744073709551616 = (-x).toNat := by omega
+      have : (-x).toNat ≠ 0 := by omega
+      simp only [hneg, if_true, hm, this, if_false]
+    · have hm : (x % 18446744073709551616).toNat = x.toNat := by omega
+      have : x.toNat ≠ 0 := by omega
+      simp only [hneg, if_false, hm, this]
+
+/-! ## substr -/
+
+/-- `substr(i, n)` for a string shorter than 2^31, `-len ≤ i`, `0 ≤ n` (both `int`): none of the code's `int`
+    additions wraps any more, and the indices select at most `n` bytes from the start position -/
+theorem substrIdx_spec (s : Bytes) (i n : Int) (hlen : (s.length : Int) < 2147483648)
+    (hi : -(s.length : Int) ≤ i) (hi2 : i < 2147483648) (hn : 0 ≤ n) (hn2 : n < 2147483648) :
+    ∃ a b, substrIdx s.length i n = some (a, b) ∧ a ≤ b ∧ b ≤ s.length ∧
+      sub s a b = (s.drop (if i < 0 then i + s.length else i).toNat).take n.toNat := by
+  have hst : (if i < 0 then wrap32 (i + s.length) else i) = (if i < 0 then i + s.length else i) := by
+    split
+    · rw [wrap32_id] <;> omega
+    · rfl
+  unfold substrIdx
+  simp only [hst]
+  generalize hS : (if i < 0 then i + (s.length : Int) else i) = st
+  have hst0 : 0 ≤ st := by subst hS; split <;> omega
+  have hst2 : st < 2147483648 := by subst hS; split <;> omega
+  have hneg : ¬ st < 0 := by omega
+  simp only [hneg, if_false]
+  by_cases hge : st ≥ s.length
+  · simp only [hge, if_true]
+    have hw : wrap32 ((s.length : Int) - s.length) = 0 := by rw [Int.sub_self]; rfl
+    have hj : (if n > wrap32 ((s.length : Int) - s.length) then (s.length : Int) else wrap32 (s.length + n)) = s.length := by
+      rw [hw]
+      split
+      · rfl
+      · have : n = 0 := by omega
+        subst this; rw [wrap32_id] <;> omega
+    rw [hj]
+    simp only [Int.lt_irrefl, if_false, Int.toNat_natCast]
+    refine ⟨_, _, rfl, Nat.le_refl _, Nat.le_refl _, ?_⟩
+    rw [sub_eq, List.drop_eq_nil_of_le (Nat.le_refl _), List.drop_eq_nil_of_le (by omega)]
+    simp
+  · simp only [hge, if_false]
+    have hw : wrap32 ((s.length : Int) - st) = s.length - st := by rw [wrap32_id] <;> omega
+    rw [hw]
+    by_cases hbig : n > (s.length : Int) - st
+    · simp only [hbig, if_true]
+      have : ¬ ((s.length : Int) < st) := by omega
+      simp only [this, if_false, Int.toNat_natCast]
+      refine ⟨_, _, rfl, by omega, Nat.le_refl _, ?_⟩
+      rw [sub_eq, List.take_of_length_le (by simp), List.take_of_length_le (by simp only [List.length_drop]; omega)]
+    · simp only [hbig, if_false]
+      have hw2 : wrap32 (st + n) = st + n := by rw [wrap32_id] <;> omega
+      rw [hw2]
+      have : ¬ (st + n < st) := by omega
+      simp only [this, if_false]
+      refine ⟨_, _, rfl, by omega, by omega, ?_⟩
+      rw [sub_eq]
+      congr 1
+      omega
+
+/-- before the repair: `"hello world".substr(1, INT_MAX)` computed `1 + INT_MAX = INT_MIN` and asked for a
+    string of negative size (`none`), although all arguments are in range -/
+theorem substr_unrepaired_counterexample :
+    substrIdxUnrepaired 11 1 2147483647 = none ∧ substrIdx 11 1 2147483647 = some (1, 11) := by decide
 
 end AslProofs.Str
